@@ -68,11 +68,12 @@ NewConn(dir, st, nodeName, t, c) ==
   [used |-> TRUE, dir |-> dir, st |-> st, nodeName |-> nodeName, hostId |-> "", originHost |-> "",
    added |-> FALSE,                        \* has an ident / is (was) in the node's tables
    lastRead |-> t, lastDwr |-> -1,
-   sock |-> "open", connecting |-> FALSE, soErr |-> -1, sendErr |-> FALSE,
+   sock |-> "open", connecting |-> FALSE, soErr |-> -1, sendErr |-> FALSE, stalled |-> FALSE,
    netIn |-> <<>>, remoteClosed |-> FALSE, recvErr |-> FALSE,
    readQ |-> <<>>, rdStop |-> FALSE, rdDone |-> FALSE, rdDl |-> t + 5, rdNew |-> TRUE,     \* New: has not reached its first queue.get yet
    writeQ |-> <<>>, wbuf |-> <<>>, wrStop |-> FALSE, wrDone |-> FALSE, wrDl |-> t + 5, wrNew |-> TRUE,
-   hbh |-> 1000 * (c + 1)]
+   \* hop-by-hop generators start at random values: distinct per connection, or (configuration samehbh) all the same
+   hbh |-> IF NodeCfg.samehbh THEN 2000 ELSE 1000 * (c + 1)]
 
 InitState ==
   [now |-> 0, life |-> "run",
@@ -103,6 +104,7 @@ InitState ==
                              resp |-> [alive |-> TRUE, dl |-> 3, stop |-> FALSE],
                              procs |-> <<>>]],
    nproc |-> 0,
+   nreq |-> [a \in Apps |-> 0],           \* handler invocations per application (the "alt" handler answers every second request only)
    lostOut |-> 0,
    out |-> <<>>]
 
@@ -303,7 +305,12 @@ ReceiveAppRequest(S, c, m) ==   \* -> [S, raised]
                ELSE
                CASE AppCfg[a].handler = "hold"   -> [S |-> [S1 EXCEPT !.held = Append(@, [a |-> a, c |-> c, m |-> m, answered |-> FALSE])], raised |-> FALSE]
                  [] AppCfg[a].handler = "answer" -> [S |-> SubmitAnswer(S1, a, [Answer(m, 2001) EXCEPT !.app = m.app]), raised |-> FALSE]
-                 [] AppCfg[a].handler = "raise"  -> [S |-> S1, raised |-> TRUE]
+                 [] AppCfg[a].handler = "alt"    ->       \* no answer to the 1st, 3rd, ... request, an answer at once to the others
+                      LET S2 == [S1 EXCEPT !.nreq[a] = @ + 1] IN
+                      IF S2.nreq[a] % 2 = 1 THEN [S |-> S2, raised |-> FALSE]
+                      ELSE [S |-> SubmitAnswer(S2, a, [Answer(m, 2001) EXCEPT !.app = m.app]), raised |-> FALSE]
+                 \* (the request stays on record as answered by the node, so that the environment can still submit an answer for it)
+                 [] AppCfg[a].handler = "raise"  -> [S |-> [S1 EXCEPT !.held = Append(@, [a |-> a, c |-> c, m |-> m, answered |-> TRUE])], raised |-> TRUE]
 
 ReceiveAppAnswer(S, c, m) ==
   IF ~\E r \in S.appWait : r.hbh = m.hbh /\ r.e2e = m.e2e THEN S
@@ -411,7 +418,7 @@ WrStep(S, c) ==
 
 \* ---- the I/O loop ------------------------------------------------------------
 Readable(S, c) == S.conn[c].sock = "open" /\ (S.conn[c].netIn # <<>> \/ S.conn[c].remoteClosed \/ S.conn[c].recvErr)
-Writable(S, c) == S.conn[c].sock = "open" /\ ~S.conn[c].connecting
+Writable(S, c) == S.conn[c].sock = "open" /\ ~S.conn[c].connecting /\ ~S.conn[c].stalled
 
 IoEnabled(S) ==
   /\ ~S.io.done
@@ -610,8 +617,8 @@ ProcStep(S, a, i) ==
   LET x == S.tapp[a].procs[i]
       ans(rc) == [Answer(x.m, rc) EXCEPT !.app = x.m.app]
       Done(St, item) == [St EXCEPT !.tapp[a].procs[i].st = "done", !.tapp[a].respQ = IF item = <<>> THEN @ ELSE Append(@, item)]
-      S0 == IF x.st = "new" THEN Emit(S, [ev |-> "app_req", a |-> a, c |-> x.c, m |-> x.m]) ELSE S
-      h  == AppCfg[a].handler
+      S0 == IF x.st = "new" THEN Emit([S EXCEPT !.nreq[a] = @ + 1], [ev |-> "app_req", a |-> a, c |-> x.c, m |-> x.m]) ELSE S
+      h  == IF AppCfg[a].handler = "alt" THEN (IF S0.nreq[a] % 2 = 1 THEN "none" ELSE "answer") ELSE AppCfg[a].handler
   IN IF x.st = "sleep" THEN Done(S0, [none |-> FALSE, m |-> ans(2001)])
      ELSE CASE h = "answer" -> Done(S0, [none |-> FALSE, m |-> ans(2001)])
             [] h = "raise"  -> Done(S0, [none |-> FALSE, m |-> ans(5012)])
@@ -688,7 +695,7 @@ RECURSIVE SumIds(_)
 SumIds(pw) == IF pw = <<>> THEN 0 ELSE Cardinality(Head(pw).ids) + SumIds(Tail(pw))
 Retained(S) ==
   [connections |-> Len(S.connections), peerSockets |-> Len(S.peerSockets), socketPeers |-> Cardinality(S.socketPeers),
-   halfReady |-> Cardinality(S.halfReady), peerWait |-> SumIds(S.peerWait), appWait |-> Cardinality(S.appWait),
+   halfReady |-> Cardinality(S.halfReady), peerWait |-> Len(S.peerWait) + SumIds(S.peerWait), appWait |-> Cardinality(S.appWait),
    originWait |-> Cardinality(S.originWait),
    threads |-> Cardinality({c \in ConnIds : S.conn[c].used /\ ~S.conn[c].rdDone}) + Cardinality({c \in ConnIds : S.conn[c].used /\ ~S.conn[c].wrDone}),
    openSockets |-> Cardinality({c \in ConnIds : S.conn[c].used /\ S.conn[c].sock = "open"})]
@@ -731,6 +738,7 @@ EnvConnect(S) ==      \* a remote party connects to the listening socket
 EnvFeed(S, c, chunk) == [S EXCEPT !.conn[c].netIn = Append(@, chunk)]
 EnvPeerClose(S, c) == [S EXCEPT !.conn[c].remoteClosed = TRUE]
 EnvPeerReset(S, c) == [S EXCEPT !.conn[c].recvErr = TRUE]
+EnvStall(S, c) == [S EXCEPT !.conn[c].stalled = TRUE]          \* the peer stops reading: the socket is never writable again
 EnvSendError(S, c) == [S EXCEPT !.conn[c].sendErr = TRUE]          \* the next send() on c fails with a hard error
 EnvConnectResult(S, c, err) == [S EXCEPT !.conn[c].connecting = FALSE, !.conn[c].soErr = err]
 EnvTick(S) == [S EXCEPT !.now = @ + 1]
